@@ -27,8 +27,9 @@ import Frp.Props.C06
        (scripts of (n, err) pairs: data together with EOF / another error, (0, nil), any segmentation) and all
        contract-abiding sinks ....................... reader_pair_unchanged, reader_any_source, reader_any_prefix,
        reader_read_bounds, reader_eof_with_data, stats_count_all, writer_any_sink, writer_calls_any_sink,
-       writer_lax_sink_witness (outside the contract); charging: reader_charged_partial, reader_tail_uncharged /
-       reader_charged_witness (DEFECT: bytes that come with an error pass the limiter for free)
+       writer_lax_sink_witness (outside the contract); charging: reader_charged (every byte, those that come with an
+       error included), reader_tail_charged, reader_code_charges (tie: regenerated from reader.go),
+       reader_charged_old_witness (sensitivity: reader.go before c863bec)
    (4) token bucket ............................... bucket_bound, bucket_window_bound, writer_requests_admissible
    (5) close propagation .......................... client_close, server_close_fixed, server_close_partial,
        server_close_witness (DEFECT, DESIGN §7 #2), http_close_*, closeNotify_witness (DEFECT #17),
@@ -431,12 +432,17 @@ theorem stats_count_all (ws : List RW) (plen : Nat) (hb : burstsPos ws = true) (
   rw [List.map_map, h] at this
   exact this
 
-/-- faithful to reader.go: the bytes that come with an error are handed on but NOT charged to the limiter
-    (`if err != nil { return }` precedes `WaitN`) — with a transport that ends every stream `(n, EOF)` the last read of
-    every connection (up to one burst) passes the limiter for free -/
-theorem reader_tail_uncharged (inf : Bool) (b plen : Nat) (d : C01Bytes) (hd : d.length ≤ readerAsk b plen) :
-    (readW [.limit inf b] plen [⟨d, .eof⟩]).1 = { got := d, err := .eof, reqs := [] } := by
-  simp [readW, srcRead, hd, PErr.ofS]
+/-- reader.go (since c863bec): the bytes that come with an error are handed on AND charged — `WaitN(n)` runs inside the
+    error branch when `n > 0`; a bare `(0, err)` asks for nothing -/
+theorem reader_tail_charged (inf : Bool) (b plen : Nat) (d : C01Bytes) (hd : d.length ≤ readerAsk b plen) (hb : 0 < b) :
+    (readW [.limit inf b] plen [⟨d, .eof⟩]).1 =
+      { got := d, err := .eof, reqs := if d.length = 0 then [] else [d.length] } := by
+  have hw : waitOk inf b d.length = true := by
+    simp only [waitOk, Bool.or_eq_true, decide_eq_true_eq]; right
+    exact Nat.le_trans hd (readerAsk_le b plen).2
+  by_cases h0 : d.length = 0
+  · simp [readW, srcRead, hd, PErr.ofS, h0]
+  · simp [readW, srcRead, hd, PErr.ofS, h0, hw]
 
 /-- FOR ALL contract-abiding SINKS (full counts, short counts with an error, full counts with an error, at any call):
     `Write` through any wrapper stack returns exactly the number of bytes the sink took — the sum of the counts the sink
@@ -466,7 +472,7 @@ theorem writer_lax_sink_witness :
 
 example : (drainW [.stats, .limit false 3, .pass] 8 20 [⟨[1, 2, 3, 4], .none⟩, ⟨[], .none⟩, ⟨[5, 6], .eof⟩]).map
     (fun r => (r.got, r.err, r.reqs)) =
-    [([1, 2, 3], .none, [3]), ([4], .none, [1]), ([], .none, [0]), ([5, 6], .eof, [])] := by decide
+    [([1, 2, 3], .none, [3]), ([4], .none, [1]), ([], .none, [0]), ([5, 6], .eof, [2])] := by decide
 example : (writeS false 3 [⟨3, false, false⟩, ⟨1, false, false⟩] [1, 2, 3, 4, 5, 6, 7]).1 =
     { n := 4, err := .sink, reqs := [3, 3], offered := [[1, 2, 3], [4, 5, 6]], took := [3, 1] } := by decide
 
@@ -983,30 +989,32 @@ def rsrcChargedOn (ns : List Nat) (toks : Option (List Nat)) : Bool :=
   | some ts => tokensCover ts ns
   | none => true
 
-/-- over a source whose errors come on a read of their own (tcp, yamux, websocket) every byte is charged -/
-theorem reader_charged_partial (ws : List RW) (plen : Nat) (hb : burstsPos ws = true) (hp : 0 < plen) (src : List Seg)
-    (ho : ownErr src = true) (hl : 0 < nLim ws) :
+/-- FOR ALL SOURCES every byte handed to the caller is charged to every limiter of the stack — those that come together
+    with an error included (fix c863bec) -/
+theorem reader_charged (ws : List RW) (plen : Nat) (hb : burstsPos ws = true) (hp : 0 < plen) (src : List Seg)
+    (hl : 0 < nLim ws) :
     rsrcChargedOn ((drainW ws plen (srcFuel src) src).map (·.got.length))
       (some ((drainW ws plen (srcFuel src) src).map (·.reqs.sum))) = true := by
   have h2 := (reader_any_source ws plen hb hp src).2.1
-  have h3 := drainW_ownErr ws plen hb (srcFuel src) src ho
-  generalize drainW ws plen (srcFuel src) src = rs at h2 h3
+  generalize drainW ws plen (srcFuel src) src = rs at h2
   simp only [rsrcChargedOn]
   apply tokensCover_map
   intro r hr
-  by_cases he : r.err = .none
-  · rw [(h2 r hr).2.2.1 he]
-    obtain ⟨m, hm⟩ : ∃ m, nLim ws = m + 1 := ⟨nLim ws - 1, by omega⟩
-    rw [hm]
-    simp only [List.replicate_succ, List.sum_cons]
-    exact Nat.le_add_right _ _
-  · rw [h3 r hr he]; exact Nat.zero_le _
+  rw [(h2 r hr).2.2.2]
+  exact Nat.le_mul_of_pos_left _ hl
 
-/-- DEFECT (faithful to reader.go): over a source that ends `(n > 0, EOF)` — a quic stream — the last `n` bytes (up to one
-    burst per connection) are handed on without a token: `if err != nil { return }` comes before `WaitN` -/
-theorem reader_charged_witness :
-    rsrcChargedOn ((drainW [.limit false 8] 8 (srcFuel [⟨[1, 2], .eof⟩]) [⟨[1, 2], .eof⟩]).map (·.got.length))
-      (some ((drainW [.limit false 8] 8 (srcFuel [⟨[1, 2], .eof⟩]) [⟨[1, 2], .eof⟩]).map (·.reqs.sum))) = false := by
+/-- sensitivity: reader.go as it was BEFORE c863bec (`Limit.readWOld`: `if err != nil { return }` ahead of `WaitN`) fails
+    the predicate over a source that ends `(n > 0, EOF)` — a quic stream: its last bytes passed the limiter for free -/
+theorem reader_charged_old_witness :
+    rsrcChargedOn ((drainWOld [.limit false 8] 8 (srcFuel [⟨[1, 2], .eof⟩]) [⟨[1, 2], .eof⟩]).map (·.got.length))
+      (some ((drainWOld [.limit false 8] 8 (srcFuel [⟨[1, 2], .eof⟩]) [⟨[1, 2], .eof⟩]).map (·.reqs.sum))) = false ∧
+    readerChargeOld 2 true = 0 ∧ readerCharge 2 true = 2 := by
+  decide
+
+/-- the tie to reader.go (regenerated on every run): every `return` of `Reader.Read` after the read below is dominated
+    by a `WaitN` call (one guarded by `n > 0` counts: it runs whenever there are bytes) -/
+theorem reader_code_charges :
+    Gen.ConnFacts.readerReturnsCharged.all (fun r => r.2) = true ∧ Gen.ConnFacts.readerReturnsCharged ≠ [] := by
   decide
 
 /-- one recorded `Write` of a REAL wrapper stack over a scripted sink: `len(p)`, the returned count, whether
